@@ -93,6 +93,15 @@ func (ex *Exec) resolveType(s string) types.Type {
 	}
 	tv, err := types.Eval(ex.prog.Fset, ex.prog.Pkg.Types, token.NoPos, s)
 	if err != nil {
+		// the expression may name imported packages: evaluate it in the scope of a file that imports them
+		for _, f := range ex.prog.Pkg.Syntax {
+			if tv2, err2 := types.Eval(ex.prog.Fset, ex.prog.Pkg.Types, f.End()-1, s); err2 == nil {
+				tv, err = tv2, nil
+				break
+			}
+		}
+	}
+	if err != nil {
 		efail("cannot resolve type %q: %v", s, err)
 	}
 	if !tv.IsType() {
